@@ -145,13 +145,15 @@ def endBlockSem (pos : Nat) (s : Sem) : Res :=
     | .none => .ok { s with blocks := .mk parent.typ parent.name (parent.fields.addChild k child) :: rest }
     | _ => .err pos (str "child " ++ k ++ str " duplicate at parent")
 
-/-- The bind statement. -/
-def bindSem (p : Prog) (ti : Nat) (opt : Nat) (pos : Nat) (s0 : Sem) : Res :=
-  let s : Sem :=
-    match s0.binding with
-    | some _ => { s0 with log := (str "WARNING: line " ++ fmtPos p.lfs pos ++
-                    str ": repeated bind statement, last one overrides\n") :: s0.log }
-    | none => s0
+/-- Every bind after the first leaves a warning on the log (and does not fail). -/
+def bindWarn (p : Prog) (pos : Nat) (s0 : Sem) : Sem :=
+  match s0.binding with
+  | some _ => { s0 with log := (str "WARNING: line " ++ fmtPos p.lfs pos ++
+                  str ": repeated bind statement, last one overrides\n") :: s0.log }
+  | none => s0
+
+/-- Selecting the blocks of the named type among the completed toplevel blocks. -/
+def bindCore (p : Prog) (ti : Nat) (opt : Nat) (pos : Nat) (s : Sem) : Res :=
   match constStr p ti with
   | some bt =>
     let sel := opt % 16
@@ -171,6 +173,10 @@ def bindSem (p : Prog) (ti : Nat) (opt : Nat) (pos : Nat) (s0 : Sem) : Res :=
       else if tgt = tgtSlice && sel = selLast then .ok { s with binding := some (.slice [last]) }
       else .err pos (str "invalid bind target and selector :0x" ++ padLeft 2 32 (hexLower opt))
   | none => .wrong
+
+/-- The bind statement. -/
+def bindSem (p : Prog) (ti : Nat) (opt : Nat) (pos : Nat) (s0 : Sem) : Res :=
+  bindCore p ti opt pos (bindWarn p pos s0)
 
 /-- `print`: the topmost value is removed and written as a line. -/
 def printSem (s : Sem) : Res :=
